@@ -51,6 +51,20 @@ def _log(msg):
     print("[%6.1fs] %s" % (time.time() - _T0[0], msg), flush=True)
 
 
+def _setup(pid):
+    """private work dir and private driver binary: runs against a scratch worktree (VERIF_REPO) may overlap with
+    runs against /repo, and must neither share .work/<pid> nor race on .build/parsepos"""
+    tag = "" if os.path.realpath(vf.REPO) == "/repo" else "-" + os.path.basename(os.path.realpath(vf.REPO))
+    wd = vf.workdir(pid + tag)
+    saved = vf.BUILD
+    vf.BUILD = os.path.join(wd, "build")
+    try:
+        binary = vf.build_driver("parsepos")
+    finally:
+        vf.BUILD = saved
+    return wd, binary
+
+
 def _write(path, text):
     with open(path, "w") as fh:
         fh.write(text)
@@ -202,8 +216,7 @@ def _spans_replay(binary, casefile, verdict, stats_acc, label):
 def run_c13(pid, tier, replay):
     t0 = time.time()
     _T0[0] = t0
-    wd = vf.workdir(pid)
-    binary = vf.build_driver("parsepos")
+    wd, binary = _setup(pid)
     _log("driver built")
     verdict = vf.Verdict(pid)
     ust = collections.Counter()
@@ -268,6 +281,10 @@ def run_c13(pid, tier, replay):
          [lambda: _spans_replay(binary, wd + "/cases_mut.jsonl", verdict, sst, "mut")])
     _log("replay done: %d unit cases, %d checks; %d mutants" % (ust["Cases"], ust["Checks"], sst["Cases"]))
 
+    # the unit table itself (token extents, comment-ness) must agree with the lexer; a disagreement on otherwise
+    # clean code means the spec's unit model is wrong (exit 2); next to position violations it is their consequence
+    if ust["ModelMismatches"] and not verdict.violations and not verdict.known_hits:
+        raise vf.MachineryError("MCSrcPos unit table disagrees with the lexer in %d places" % ust["ModelMismatches"])
     # vacuity guards (exit 2, not a verdict)
     if ust["Cases"] != ncases or ust["Checks"] == 0 or ust["ItemsMatched"] == 0 or ust["CasesWithLexError"] == 0 \
             or ust["CasesWithNodes"] == 0 or ust["ErrorsChecked"] == 0:
@@ -516,8 +533,7 @@ def _selftests(wd, tracefile):
 def run_c12(pid, tier, replay):
     t0 = time.time()
     _T0[0] = t0
-    wd = vf.workdir(pid)
-    binary = vf.build_driver("parsepos")
+    wd, binary = _setup(pid)
     _log("driver built")
     verdict = vf.Verdict(pid)
     if replay:
